@@ -1279,6 +1279,30 @@ def _b_chain(eng, args, kwargs):
     return Iter(PList(out))
 
 
+def _combinatoric(fn):
+    """itertools.combinations / permutations / product / pairwise of sequences of CONCRETE length: the tuples CPython yields, in its order
+    (only positions are combined; the entries may be symbolic).  The order is taken from itertools itself, run on index tuples."""
+
+    def model(eng, args, kwargs):
+        if any(isinstance(v, Sym) for v in kwargs.values()):
+            raise Unsupported(f"itertools.{fn.__name__} with a symbolic option")
+        pools, rest = [], []
+        for a in args:
+            if isinstance(a, int) and not isinstance(a, bool):
+                rest.append(a)
+            else:
+                pools.append(iterate_concrete(eng, a))
+        idx = fn(*[range(len(p)) for p in pools], *rest, **kwargs)
+        if fn is itertools.product:
+            out = [tuple(pools[k % len(pools)][i] for k, i in enumerate(t)) for t in idx]
+        else:
+            out = [tuple(pools[0][i] for i in t) for t in idx]
+        eng.assumptions.add(f"stdlib-model:itertools.{fn.__name__} over sequences of concrete length yields CPython's index tuples in CPython's order")
+        return Iter(PList(out))
+
+    return model
+
+
 def _b_print(eng, args, kwargs):
     return None
 
@@ -1350,6 +1374,9 @@ BUILTIN_MODELS = {
     enumerate: _b_enumerate, map: _b_map, iter: _b_iter, next: _b_next, min: _b_min, max: _b_max,
     sum: _b_sum, abs: _b_abs, any: _b_any, all: _b_all, str: _b_str, _warnings.warn: _b_warn,
     reversed: _b_reversed, sorted: _b_sorted, itertools.chain: _b_chain, print: _b_print,
+    itertools.combinations: _combinatoric(itertools.combinations), itertools.permutations: _combinatoric(itertools.permutations),
+    itertools.product: _combinatoric(itertools.product), itertools.pairwise: _combinatoric(itertools.pairwise),
+    itertools.combinations_with_replacement: _combinatoric(itertools.combinations_with_replacement),
 }
 try:
     import typing
